@@ -397,8 +397,18 @@ pub fn f12_window(c: &ConnCase, log: &[Ev], sched: &[Sched]) -> bool {
                 k += 1;
                 if e.kind == EvKind::HReady {
                     if let Some(l) = last_arrived {
-                        if l != e.req && c.reqs[l].ctx(c.ka) != c.reqs[e.req].ctx(c.ka) {
-                            return true;
+                        // a later request was decoded before this head is encoded: its context is
+                        // used for this response, and what this and the following responses do to
+                        // the codec's connection type is inherited by the responses up to l
+                        if l > e.req {
+                            let ctx_differs = c.reqs[l].ctx(c.ka) != c.reqs[e.req].ctx(c.ka);
+                            let conn_touched = (e.req..l).any(|i| {
+                                let h = &c.handlers[i];
+                                h.resp.conn == "close" || h.resp.conn == "upgrade" || h.size == SizeSpec::Stream
+                            });
+                            if ctx_differs || conn_touched {
+                                return true;
+                            }
                         }
                     }
                 }
@@ -414,6 +424,8 @@ pub fn v_conn(run: &ConnRun) -> V {
     let res = match &run.result {
         ConnPoll::Failed(k) if k == "Body" => 1u32,
         ConnPoll::Failed(k) if k == "Io" => 2,
+        // the parse error of a malformed request is surfaced after its 400 response is flushed
+        ConnPoll::Failed(k) if k == "Parse" => 0,
         ConnPoll::Failed(_) => 3,
         _ => 0,
     };
@@ -462,7 +474,7 @@ pub fn oracle_conn(c: &ConnCase, run: &ConnRun) -> Result<(), String> {
         } else if req.expect && req.ver == 11 && !failed {
             return Err(format!("no 100 Continue before the response to request {i} although it sent Expect: 100-continue"));
         }
-        let (produced_all, has_err) = h.produced();
+        let (produced_all, has_err) = if h.size.eofish() { (vec![], false) } else { h.produced() }; // an empty body is never polled
         // what the body actually yielded (a filtering body drops empty chunks before the dispatcher sees them)
         let produced: Vec<Vec<u8>> = produced_all;
         let size = h.size.clone();
